@@ -65,6 +65,9 @@ pub struct TransportOracle {
     old_generation_deliveries: u64,
     /// latest (send_buffer_size, packets queued or awaiting acknowledgement) per direction
     last_tx: BTreeMap<(usize, usize), (u64, u64)>,
+    /// (caller, peer) -> number of submissions at the time of the caller's first disconnect call,
+    /// and whether that call was the graceful disconnect()
+    disc_calls: BTreeMap<(usize, usize), (usize, bool)>,
     /// channel on which packets too short to carry a header travel
     short_ch: u8,
     hc_owner: BTreeMap<u64, (usize, Option<usize>)>,
@@ -93,6 +96,7 @@ impl TransportOracle {
             old_dirs: BTreeMap::new(),
             old_generation_deliveries: 0,
             last_tx: BTreeMap::new(),
+            disc_calls: BTreeMap::new(),
             short_ch: plan.param("short_ch", 0.0) as u8,
             hc_owner: BTreeMap::new(),
             deliveries: 0,
@@ -136,12 +140,18 @@ impl Oracle for TransportOracle {
     fn on(&mut self, rec: &Rec, cx: &Cx) -> Option<Violation> {
         let prop = self.property;
         match rec {
-            Rec::Call { op: Op::Create { ep }, .. } => {
+            Rec::Call { op: Op::Create { ep }, skipped: false, .. } => {
                 // a new incarnation of an endpoint starts fresh sequences in both directions
                 let ep = *ep;
                 let keys: Vec<(usize, usize)> = self.dirs.keys().filter(|(a, b)| *a == ep || *b == ep).cloned().collect();
                 let world_b = !matches!(cx.plan.endpoints[ep].kind, EndpointKind::Hc { .. });
                 for k in keys {
+                    // World B, the other side's sequence towards this address: it belongs to the
+                    // peer's connection, which lives on until the peer reports its end (or a new
+                    // Connect for the address); nothing to reset here
+                    if world_b && k.1 == ep && k.0 != ep {
+                        continue;
+                    }
                     let d = self.dirs.remove(&k);
                     self.old_dirs.remove(&k);
                     if let (true, true, Some(mut d)) = (world_b, k.0 == ep, d) {
@@ -169,6 +179,34 @@ impl Oracle for TransportOracle {
                 dir.by_ch.entry(*ch).or_default().push(idx);
                 dir.queue.push_back(idx);
                 dir.model_size += payload.len() as u64;
+            }
+            Rec::Call { op: Op::Disconnect { ep, to } | Op::DisconnectNow { ep, to }, skipped: false, .. } => {
+                let graceful = matches!(rec, Rec::Call { op: Op::Disconnect { .. }, .. });
+                if let Some(dst) = to.or_else(|| peer_of(cx.plan, *ep)) {
+                    let n = self.dirs.get(&(*ep, dst)).map_or(0, |d| d.subs.len());
+                    self.disc_calls.entry((*ep, dst)).or_insert((n, graceful));
+                }
+            }
+            Rec::Event { call, ep, peer, ev: AppEvent::Disconnect, .. } if self.clauses.ideal => {
+                // ideal network: a graceful disconnect() by the peer flushes everything it had
+                // accepted before the call (all modes but TimeSensitive) ahead of the Disconnect
+                let other = peer.or_else(|| peer_of(cx.plan, *ep));
+                let mut bad = None;
+                if let Some(other) = other {
+                    if let (Some(&(n, true)), None) = (self.disc_calls.get(&(other, *ep)), self.disc_calls.get(&(*ep, other))) {
+                        if let Some(dir) = self.dirs.get(&(other, *ep)) {
+                            if let Some((i, s)) = dir.subs.iter().enumerate().take(n).find(|(_, s)| s.mode != MODE_TIME_SENSITIVE && !s.delivered) {
+                                bad = Some(format!("endpoint {} saw Disconnect after the graceful disconnect() of endpoint {} on an ideal network, but submission #{} ({}), accepted before that call, was never delivered", ep, other, i, describe(&s.payload)));
+                            }
+                        }
+                    }
+                    for k in [(*ep, other), (other, *ep)] {
+                        self.dirs.entry(k).or_default().ended = true;
+                    }
+                }
+                if let Some(d) = bad {
+                    return viol(prop, "ideal_not_delivered", d, *call);
+                }
             }
             Rec::Event { ep, peer, ev: AppEvent::Disconnect | AppEvent::Error(_), .. } => {
                 if let Some(other) = peer.or_else(|| peer_of(cx.plan, *ep)) {
@@ -449,6 +487,20 @@ impl Oracle for TransportOracle {
                             return viol(prop, "buffer_size_mismatch", d, *call);
                         }
                     }
+                }
+            }
+            Rec::ApiSize { call, ep, peer_addr, size } if self.clauses.buffer_model => {
+                let dst = match peer_addr {
+                    Some(a) => cx.ep_of(a),
+                    None => peer_of(cx.plan, *ep),
+                };
+                if let Some(dst) = dst {
+                    let (model, broken) = self.dirs.get(&(*ep, dst)).map_or((0, false), |d| (d.model_size, d.model_broken));
+                    if !broken && model != *size {
+                        let d = format!("endpoint {} -> {}: the public send_buffer_size() answers {} for an established connection, accepted - acknowledged - dropped = {}", ep, dst, size, model);
+                        return viol(prop, "api_send_buffer_size_mismatch", d, *call);
+                    }
+                    self.buffer_checks += 1;
                 }
             }
             Rec::CallEnd { .. } => (),
